@@ -102,6 +102,14 @@ func (h *Handlers) ReleaseAll() {
 	}
 }
 
+// Rearm undoes ReleaseAll for gates created from now on (a new session of a
+// restarted server starts with closed gates again).
+func (h *Handlers) Rearm() {
+	h.mu.Lock()
+	h.allOpen = false
+	h.mu.Unlock()
+}
+
 // Running returns the number of handler invocations in progress.
 func (h *Handlers) Running() int { return int(h.running.Load()) }
 
